@@ -28,7 +28,6 @@ type Task struct {
 	wake   baton
 	fin    chan struct{}
 	joinAt uint32 // address used for the task-end -> Join happens-before edge
-	polling bool  // inside SelectWait: its own scheduling step is not progress
 	state  taskState
 	ready  func() bool
 	why    string
@@ -102,8 +101,13 @@ type Sim struct {
 	lastSite int32
 	polSet   bool
 	budget   int64
-	prog     uint64 // bumped whenever anything other than a polling retry happens
 	timers   []*simTimer
+	chans    []*chanReg
+	nextID   int
+	// SimOps counts channel operations and task starts: work the simulator does (and
+	// allocates for) on behalf of the code under test, for oracles that meter allocation.
+	SimOps int
+	nDone    int
 	pol      int
 	// ClockSkew is added to every clock reading (clock faults).
 	ClockSkew int64
@@ -204,7 +208,13 @@ func Log(format string, a ...interface{}) {
 	if s.cur != nil {
 		name = s.cur.Name
 	}
-	s.Trace = append(s.Trace, TraceEv{s.steps, s.now, name, fmt.Sprintf(format, a...)})
+	msg := fmt.Sprintf(format, a...)
+	before := cap(s.Trace)
+	s.Trace = append(s.Trace, TraceEv{s.steps, s.now, name, msg})
+	Overhead += uint64(len(msg)) + 64
+	if n := cap(s.Trace); n != before {
+		Overhead += uint64(n) * 56
+	}
 }
 
 // Tracing is true when Log records.
@@ -252,7 +262,9 @@ func Run(cfg Config, ch *Choices, main func()) *Sim {
 
 //go:norace
 func (s *Sim) newTask(name string, f func()) *Task {
-	t := &Task{ID: len(s.tasks), Name: name, wake: newBaton(), fin: make(chan struct{}, 1)}
+	t := &Task{ID: s.nextID, Name: name, wake: newBaton(), fin: make(chan struct{}, 1)}
+	s.nextID++
+	s.SimOps += 4
 	t.prio = s.strat.newPrio(s)
 	s.tasks = append(s.tasks, t)
 	go s.taskMain(t, f)
@@ -282,6 +294,7 @@ func (s *Sim) taskExit(t *Task) {
 	wasKilled := t.kill
 	RaceRelease(&t.joinAt)
 	t.state = stDone
+	s.nDone++
 	if wasKilled || s.dying {
 		t.fin <- struct{}{}
 		return
@@ -358,12 +371,24 @@ func (s *Sim) resched(t *Task) {
 func (s *Sim) pick(t *Task) *Task {
 	s.steps++
 	t.Steps++
-	if !t.polling {
-		s.prog++
-	}
 	if s.steps > s.cfg.MaxSteps {
 		s.Truncated = true
 		return nil
+	}
+	if s.nDone > 64 {
+		// forget finished tasks (code under test that starts goroutines per call)
+		k := 0
+		for _, x := range s.tasks {
+			if x.state != stDone {
+				s.tasks[k] = x
+				k++
+			}
+		}
+		for i := k; i < len(s.tasks); i++ {
+			s.tasks[i] = nil
+		}
+		s.tasks = s.tasks[:k]
+		s.nDone = 0
 	}
 	for {
 		s.fireTimers()
@@ -419,7 +444,6 @@ func (s *Sim) pick(t *Task) *Task {
 				return nil
 			}
 			s.now = min
-			s.prog++
 			continue
 		}
 		idx := 0
@@ -512,7 +536,7 @@ func Go(f func()) {
 	if s.dying {
 		return
 	}
-	name := fmt.Sprintf("g%d", len(s.tasks))
+	name := fmt.Sprintf("g%d", s.nextID)
 	s.newTask(name, f)
 	Yield("go " + name)
 }
@@ -722,154 +746,4 @@ func Finding(clause, format string, a ...interface{}) {
 	}
 	s.Findings = append(s.Findings, Violation{Clause: clause, Msg: fmt.Sprintf(format, a...)})
 	Log("FINDING %s", clause)
-}
-
-// ---- channels, select and timers of the code under test ----
-//
-// zinstr turns a blocking select into a polling one (a default clause that calls
-// SelectWait and jumps back), `ch <- v` into Send, `<-ch` into Recv/Recv2 and
-// time.After/Tick into After/Tick. The channel operations themselves stay real
-// and non-blocking; what the simulator owns is the waiting: a task that found
-// nothing ready parks until something else has happened (an instrumented
-// statement executed by anyone, a scheduling step of a task that is not itself
-// retrying, a timer, the clock), and a state in which only such tasks remain
-// and no timer is pending is a stuck state like any other.
-
-type simTimer struct {
-	at     int64
-	period int64
-	ch     chan time.Time
-}
-
-//go:norace
-func (s *Sim) fireTimers() {
-	for i := 0; i < len(s.timers); {
-		tm := s.timers[i]
-		if tm.at > s.now {
-			i++
-			continue
-		}
-		select {
-		case tm.ch <- BaseTime.Add(time.Duration(s.now)):
-		default:
-		}
-		s.prog++
-		if tm.period > 0 {
-			tm.at += tm.period
-			i++
-			continue
-		}
-		for k := i; k+1 < len(s.timers); k++ {
-			s.timers[k] = s.timers[k+1]
-		}
-		s.timers = s.timers[:len(s.timers)-1]
-	}
-}
-
-// After is time.After on the simulated clock.
-//
-//go:norace
-func After(d time.Duration) <-chan time.Time {
-	s := S
-	if s == nil || s.dying {
-		return time.After(d)
-	}
-	if d < 0 {
-		d = 0
-	}
-	tm := &simTimer{at: s.now + int64(d), ch: make(chan time.Time, 1)}
-	s.timers = append(s.timers, tm)
-	return tm.ch
-}
-
-// Tick is time.Tick on the simulated clock.
-//
-//go:norace
-func Tick(d time.Duration) <-chan time.Time {
-	s := S
-	if s == nil || s.dying {
-		return time.Tick(d)
-	}
-	if d <= 0 {
-		return nil
-	}
-	tm := &simTimer{at: s.now + int64(d), period: int64(d), ch: make(chan time.Time, 1)}
-	s.timers = append(s.timers, tm)
-	return tm.ch
-}
-
-// SelectWait parks a task whose non-blocking channel operation found nothing
-// ready until something else has happened.
-//
-//go:norace
-func SelectWait() {
-	s := S
-	if s == nil {
-		time.Sleep(20 * time.Microsecond)
-		return
-	}
-	if s.dying {
-		runtime.Goexit()
-	}
-	t := s.cur
-	my := s.prog
-	t.state = stBlocked
-	t.why = "channel operation / select"
-	t.ready = func() bool { return s.prog != my }
-	t.polling = true
-	if s.cfg.Trace {
-		Log("block: select/channel")
-	}
-	s.resched(t)
-	t.polling = false
-}
-
-// BlockForever is `select {}`.
-//
-//go:norace
-func BlockForever() {
-	if S == nil {
-		select {}
-	}
-	Block("select {}", func() bool { return false })
-}
-
-// Send is `ch <- v`.
-func Send[T any](ch chan<- T, v T) {
-	if S == nil {
-		ch <- v
-		return
-	}
-	Yield("chan send")
-	for {
-		select {
-		case ch <- v:
-			return
-		default:
-			SelectWait()
-		}
-	}
-}
-
-// Recv is `<-ch` with its value.
-func Recv[T any](ch <-chan T) T {
-	v, _ := Recv2(ch)
-	return v
-}
-
-// Recv2 is `v, ok := <-ch`.
-func Recv2[T any](ch <-chan T) (T, bool) {
-	if S == nil {
-		v, ok := <-ch
-		return v, ok
-	}
-	Yield("chan recv")
-	for {
-		select {
-		case v, ok := <-ch:
-			return v, ok
-		default:
-			SelectWait()
-		}
-	}
 }
